@@ -183,6 +183,18 @@ pub fn c13(rng: &mut Rng, tier: &str, _idx: usize) -> Case {
         }
         c.op(format!("oracle set 0 {l}"));
     }
+    // the modifier roots of the ontology change between queries on the same ontology object
+    if rng.chance(1, 3) && !sets.is_empty() {
+        for v in ["-".to_string(), "def".to_string(), ids(ids_all.iter().copied().filter(|x| *x != 1 && *x != 118 && rng.chance(1, 4)))] {
+            c.op(format!("setmod 0 {v}"));
+            for _ in 0..2 {
+                let l = ids(rng.pick(&sets).clone());
+                c.op(format!("setq 0 {l} without_modifier,show,remove_modifier,show,categories"));
+                c.op(format!("oracle set 0 {l}"));
+            }
+            c.stat("modifier_roots_changed_between_queries", 1);
+        }
+    }
     // a few sets with a member that is not a term: every operation that looks it up panics
     if rng.chance(1, 4) {
         let mut s: Vec<u32> = ids_all.iter().copied().filter(|_| rng.chance(1, 3)).collect();
@@ -446,9 +458,71 @@ fn c18_termless(rng: &mut Rng) -> Case {
     c
 }
 
+/// Builder route (names are not cut there): gene and term names longer than 255 bytes that differ
+/// only AFTER byte 255, and records with 65 .. 90 direct terms that differ at the tail of the list
+fn c18_long(rng: &mut Rng, lists: bool) -> Case {
+    let mut c = Case::new(if lists { "long-term-lists" } else { "long-names" });
+    let n = if lists { rng.range(70, 95) as usize } else { 6 };
+    let mut ids_all = gen_ids(rng, n, &[1, 118]);
+    ids_all.sort_unstable();
+    let stem = "x".repeat(*rng.pick(&[254usize, 255, 256, 270]));
+    let long_a = format!("{stem}é tail one");
+    let long_b = format!("{stem}é tail two");
+    for slot in 0..2u32 {
+        c.op("new".to_string());
+        c.op(format!("term 1 {}", name("All")));
+        c.op(format!("term 118 {}", name("Phenotypic abnormality")));
+        for (i, id) in ids_all.iter().enumerate() {
+            let nm = if !lists && i == 0 { if slot == 0 { long_a.clone() } else { long_b.clone() } } else { format!("t{i}") };
+            c.op(format!("term {} {}", id, name(&nm)));
+        }
+        c.op("complete".to_string());
+        c.op("parent 1 118".to_string());
+        for id in &ids_all {
+            c.op(format!("parent 118 {id}"));
+        }
+        c.op("connect".to_string());
+        for (k, kind) in KINDS.iter().enumerate() {
+            let rname = if !lists && k == 0 { if slot == 0 { long_a.clone() } else { long_b.clone() } } else { format!("rec {kind}") };
+            // the record's direct terms: all but a few; the second ontology differs at the TAIL
+            // (largest ids) or the head of the list
+            let cut = if lists { rng.range(1, 10) as usize } else { 1 };
+            let terms: Vec<u32> = if slot == 0 {
+                ids_all.clone()
+            } else if k == 1 {
+                ids_all[cut..].to_vec()
+            } else {
+                ids_all[..ids_all.len() - cut].to_vec()
+            };
+            for t in terms {
+                c.op(format!("ann {kind} 7 {} {t}", name(&rname)));
+            }
+        }
+        c.op("ic".to_string());
+        c.op(format!("build def {slot}"));
+    }
+    for (a, b) in [(0, 1), (1, 0), (0, 0)] {
+        c.op(format!("compare {a} {b}"));
+        c.op(format!("oracle compare {a} {b}"));
+    }
+    // the binary round trip cuts names to 255 bytes: the comparison reports exactly those renames
+    c.op("roundtrip 0 2".to_string());
+    c.op("compare 0 2".to_string());
+    c.op("oracle compare 0 2".to_string());
+    c.stat(if lists { "long_term_lists" } else { "names_beyond_255_bytes" }, 1);
+    c.nontrivial = true;
+    c
+}
+
 pub fn c18(rng: &mut Rng, _tier: &str, idx: usize) -> Case {
     if idx % 25 == 12 {
         return c18_termless(rng);
+    }
+    if idx % 25 == 13 {
+        return c18_long(rng, false);
+    }
+    if idx % 25 == 14 {
+        return c18_long(rng, true);
     }
     let kind = EDIT_KINDS[idx % EDIT_KINDS.len()];
     let mut c = Case::new(kind);
